@@ -96,6 +96,13 @@ func c13Reset(c *vcore.Ctx) *vcore.Violation {
 		cred = credGen{uint32(10000 + src.Int(100, "uid")), uint32(10000 + src.Int(100, "gid"))}
 	}
 	extraTmp := src.Bool(1, 2, "extra_tmpfs")
+	// a configured symbolic link that lives inside a writable mount: a tenant may replace it by something of its own
+	linkInW := src.Bool(1, 2, "configured_link_in_writable_mount")
+	kSymLinks = nil
+	if linkInW {
+		kSymLinks = []container.SymbolicLink{{LinkPath: "/w/in", Target: "/tmp"}, {LinkPath: "/dev/fd", Target: "/proc/self/fd"}}
+	}
+	defer func() { kSymLinks = nil }()
 	ct, err := kBuildContainer(func(b *mount.Builder) {
 		if extraTmp {
 			b.WithTmpfs("scratch", "size=4m")
@@ -118,6 +125,12 @@ func c13Reset(c *vcore.Ctx) *vcore.Violation {
 		for r := 0; r < nruns; r++ {
 			dir := "/" + mounts[src.Int(len(mounts), "where")]
 			script := tenantScript(c, dir, t*10+r)
+			if linkInW && src.Bool(1, 2, "replace_configured_link") {
+				// the tenant puts a directory of its own where the configured link was
+				script = append([]string{"sys", "87", "s:/w/in", "0", "0", "0", "0", "0", "sys", "83", "s:/w/in", "0755", "0", "0", "0", "0",
+					"sys", "2", "s:/w/in/note", "0x41", "0644", "0", "0", "0"}, script...)
+				c.Event("replace_configured_link")
+			}
 			c.Logf("tenant %d run %d litters %s: %q", t, r, dir, script)
 			var res runner.Result
 			if !watchdog(60*time.Second, func() { res, _ = ct.exec(context.Background(), &kExec{script: script}) }) {
@@ -135,11 +148,17 @@ func c13Reset(c *vcore.Ctx) *vcore.Violation {
 			if err != nil {
 				vcore.Harnessf("host view of /%s: %v", m, err)
 			}
-			if len(ents) > 0 {
-				var names []string
-				for _, e := range ents {
-					names = append(names, fmt.Sprintf("%q(%s)", e.Name(), e.Type()))
+			var names []string
+			for _, e := range ents {
+				if linkInW && m == "w" && e.Name() == "in" {
+					// the configured link itself may stay or go; anything else under its name is a tenant's
+					if tgt, err := os.Readlink(fmt.Sprintf("/proc/%d/root/w/in", initPid)); err == nil && tgt == "/tmp" {
+						continue
+					}
 				}
+				names = append(names, fmt.Sprintf("%q(%s)", e.Name(), e.Type()))
+			}
+			if len(names) > 0 {
 				kind := "residue_after_reset"
 				site := "mount:" + m
 				if m == "scratch" {
@@ -159,8 +178,17 @@ func c13Reset(c *vcore.Ctx) *vcore.Violation {
 		}
 		script = append(script, "exit", "0")
 		watchdog(60*time.Second, func() { _, out = ct.exec(context.Background(), &kExec{script: script}) })
-		if out != nil && len(out.find("ent ")) > 0 {
-			return vcore.Violate(prop, "residue_after_reset", "tenant_view", "the next tenant sees %v", out.find("ent "))
+		if out != nil {
+			var seen []string
+			for _, l := range out.find("ent ") {
+				if linkInW && l == "ent 10 in" {
+					continue // the configured link (a symbolic link named "in"); the host view above checked where it leads
+				}
+				seen = append(seen, l)
+			}
+			if len(seen) > 0 {
+				return vcore.Violate(prop, "residue_after_reset", "tenant_view", "the next tenant sees %v", seen)
+			}
 		}
 		if err := ct.env.Ping(); err != nil {
 			return vcore.Violate(prop, "unusable_after_reset", "ping", "environment unusable after Reset: %v", err)
@@ -241,8 +269,41 @@ func c13Memfd(c *vcore.Ctx) *vcore.Violation {
 	c.Logf("memfd shape=%s size=%d chunks=%v failAt=%d", shape, len(data), fr.chunks, fr.failAt)
 	c.Event(fmt.Sprintf("memfd:%s:%d:%v", shape, len(data), fr.failAt >= 0))
 	c.MarkNonTrivial()
+	// the supplier may be any io.Reader; real callers hand in files, buffers and readers in the middle of a stream
+	var rd io.Reader = fr
+	switch src.Pick("reader_kind", "faulty", "faulty", "osfile_at_offset", "bytes_reader_at_offset", "limited") {
+	case "osfile_at_offset":
+		if fr.failAt < 0 {
+			// a file whose header the caller has already consumed: the supplied bytes are the rest
+			hdr := 1 + src.Int(5000, "header")
+			tf, err := os.CreateTemp(c.Dir, "c13src")
+			if err != nil {
+				vcore.Harnessf("tempfile: %v", err)
+			}
+			defer tf.Close()
+			os.Remove(tf.Name())
+			tf.Write(bytes.Repeat([]byte{0xEE}, hdr))
+			tf.Write(data)
+			tf.Seek(int64(hdr), io.SeekStart)
+			rd = tf
+			c.Event("reader:osfile_at_offset")
+		}
+	case "bytes_reader_at_offset":
+		if fr.failAt < 0 {
+			hdr := 1 + src.Int(5000, "header")
+			br := bytes.NewReader(append(bytes.Repeat([]byte{0xEE}, hdr), data...))
+			br.Seek(int64(hdr), io.SeekStart)
+			rd = br
+			c.Event("reader:bytes_reader_at_offset")
+		}
+	case "limited":
+		if fr.failAt < 0 {
+			rd = io.LimitReader(io.MultiReader(bytes.NewReader(data), bytes.NewReader(bytes.Repeat([]byte{0xEE}, 100))), int64(len(data)))
+			c.Event("reader:limited")
+		}
+	}
 	fdsBefore := countFds()
-	f, err := memfd.DupToMemfd("verif", fr)
+	f, err := memfd.DupToMemfd("verif", rd)
 	if fr.failAt >= 0 {
 		if err == nil {
 			f.Close()
